@@ -162,6 +162,15 @@ theorem read_faithful (q : WfReq) (rest : Bytes) (hw : WellFormed q) :
                fragment := t.fragment, parts := t.parts, headers := hdrDic q.headers, body := q.body },
              { inp := rest }) := read_faithful_aux q rest hw
 
+/-- the keep-alive loop of `HttpServer::serve` hands **every** pipelined well-formed request to the application, in the
+    order sent, exactly once, with nothing left unread — for any number of requests of any sizes -/
+theorem serve_faithful (qs : List WfReq) (hq : ∀ q ∈ qs, WellFormed q ∧ Dispatched q) :
+    ∃ s', serve { inp := qs.flatMap serialize } = .ok (s', qs.map reqOf) ∧ s'.inp = [] ∧ s'.err = 0 := by
+  unfold serve
+  obtain ⟨s', h1, h2, h3⟩ := iterate_serve_pipelined qs hq ((qs.flatMap serialize).length + 1)
+    { inp := qs.flatMap serialize } [] rfl rfl rfl (by have := flatMap_serialize_length qs; omega)
+  exact ⟨s', by simpa using h1, h2, h3⟩
+
 /-- the same for chunked framing — stated, not proved (validated by the correspondence check and the python
     reference on generated chunked requests): for every split of the body into non-empty chunks -/
 def read_faithful_chunked_full : Prop :=
@@ -205,5 +214,11 @@ example : WellFormed ⟨[80, 79, 83, 84], [47, 97], [72, 84, 84, 80, 47, 49, 46,
   no_expect := by decide
   not_chunked := by decide
   framing := Or.inr (by decide)
+
+-- the same request is dispatched and keeps the connection (hypothesis of `serve_faithful`)
+example : Dispatched ⟨[80, 79, 83, 84], [47, 97], [72, 84, 84, 80, 47, 49, 46, 49], [(sContentLength, [50])], [104, 105]⟩ where
+  not_options := by decide
+  path_ne := by decide
+  keeps := by decide
 
 end C09
